@@ -211,6 +211,7 @@ def run(tier):
     set_collision_probe(R, jsonschema)
     probes.dynamic_over_default_conversion(R)
     probes.aggregate_probe(R, aspects=("ser_schema",), n_classes=(30 if tier == "quick" else 200))
+    probes.discriminator_schema_probe(R, {'ser_agree'})
     header = P.header() + HEADER_EXTRA + "\n".join(sdefs) + "\n"
     T2 = "js * defs * pyval * bool"
     bad2, errs = core.run_coq_shards("C07_valid", header, vcases,
